@@ -132,7 +132,7 @@ fn module_src(c: &Case, with: bool) -> (String, Option<String>) {
 
 fn enumerate(thorough: bool) -> Vec<Case> {
     let mut cases = Vec::new();
-    let mut push = |kind: &'static str, item_arg: usize, decos: Vec<Deco>, derive_first: bool, cases: &mut Vec<Case>| {
+    let push = |kind: &'static str, item_arg: usize, decos: Vec<Deco>, derive_first: bool, cases: &mut Vec<Case>| {
         let id = cases.len();
         cases.push(Case { id, kind, item_arg, decos, derive_first });
     };
